@@ -66,6 +66,14 @@ EXPRS = [
 ]
 
 
+# rejected part-way, after sub-results were built: nothing of them may stay referenced
+BAD_EXPRS = [
+    '({x} /\\ ~ {y}) \\/ ({x} /\\ _undeclared)',
+    '({y} # {x}) => ({x} \\/ )',
+    'ite({x}, {y} /\\ {x}, @987654)',
+]
+
+
 class AutorefMachine(Machine):
     name = 'autoref'
 
@@ -150,6 +158,8 @@ class AutorefMachine(Machine):
                             acts.append(('let_mixed', i, x, j, 1))
                 for k in range(len(EXPRS)):
                     acts.append(('add_expr', k))
+                for k in range(len(BAD_EXPRS)):
+                    acts.append(('bad_expr', k))
                 acts.append(('cube', self.names[0], self.names[-1]))
                 for i in idx:
                     acts.append(('copy_roundtrip', i))
@@ -241,6 +251,14 @@ class AutorefMachine(Machine):
             _, i, x, j = a
             new = bdd.let({x: fns[j]}, fns[i])
             want = U.compose(masks[i], {x: masks[j]})
+        elif kind == 'bad_expr':
+            nm = dict(zip('xyz', self.names + self.names))
+            try:
+                r = bdd.add_expr(BAD_EXPRS[a[1]].format(**nm))
+                del r
+            except Exception:  # noqa
+                pass
+            return
         elif kind == 'let_mixed':
             _, i, x, j, flip = a
             y = self.names[(self.names.index(x) + 1) % len(self.names)]
